@@ -11,6 +11,12 @@ NOTE_S = ("Trusted base: the vrewrite source rewriter and the vz shim packages (
 NOTE_E = ("Engine E runs the unmodified mangos code under the real Go scheduler and real OS transports: inputs, configurations and operation lists are enumerated exhaustively over the stated finite sets, goroutine schedules and kernel segmentation are not controlled; hang verdicts use generous watchdogs; the harness codecs/reference decoders are trusted.")
 
 claimed = {
+ "C08": ("stateless model checking of the rewritten real code: deviation-bounded exploration of all schedules of concurrent senders in small BUS/STAR topologies over the rewritten inproc transport",
+         "BUS full meshes of 2-4, a BUS chain (no forwarding by cooked sockets), a raw BUS forwarder with a loop-back device, STAR hubs with 2-3 leaves, a two-level STAR tree and a raw STAR hub: every member sends concurrently, all schedules within the deviation bound are executed on the real code, then every member drains; each must have received exactly the messages of the others that the topology promises, once, unchanged, never its own.",
+         "DESIGN.md §6 C08"),
+ "C09": ("stateless model checking of the rewritten real code: exhaustive TTL x hop-count grid by raw injection through the virtual transport on all eight receivers, plus deviation-bounded schedule exploration of real device chains over inproc",
+         "For rep, xrep, respondent, xrespondent, pair1, xpair1, star, xstar and each TTL (quick: default,1,2,3,254,255; thorough: every 1..255) every hop count 1..TTL+2 is injected followed by an in-limit sentinel: delivered iff hops <= TTL (PAIR1: forwarders <= TTL); TTL option accepts exactly 1..255; REQ x2 through 0-2 real xrep/xreq devices, SURVEYOR through a device to 2 respondents and a PAIR1 forwarder are explored over all schedules within the bound: every reply returns to the client that asked.",
+         "DESIGN.md §6 C09"),
  "C02": ("stateless model checking of the rewritten real code: deviation-bounded exploration of all schedules of concurrent senders/receivers over inproc and the virtual transport for every queue-length setting, plus exhaustive connect/drop/take/send histories",
          "PAIR/XPAIR/PAIR1 with two concurrent senders and a receiver over inproc, PAIR under manual back-pressure, PUSH/XPUSH with two or three peers that take one message at a time, PULL/XPULL with two pushers: all schedules within the deviation bound for queue lengths {128,0,1,2}; oracle: permutation of what was sent, each sender's/connection's order kept, no duplicate, no invention, every Send returns while a peer takes; PAIR second-peer refusal and re-acceptance after loss as event histories.",
          "DESIGN.md §6 C02"),
